@@ -89,11 +89,12 @@ Theorem C11_id_range : forall (hash : N) (pos : N * N),
 Proof. intros hash pos. split; [apply image_id_range|apply placement_id_range]. Qed.
 
 (* for coordinates below 65536 the position is recovered from the placement id and distinct
-   positions have distinct ids -- except for the pair (0,0) / (65535,65535), see C11_pairing_corner *)
+   positions have distinct ids -- except that the very last position (65535,65535) shares the id
+   of (65534,65535), see C11_pairing_corner_refuted and C11_pid_pigeonhole *)
 Theorem C11_pairing_ids : forall p1 p2 : N * N, in_dom p1 -> in_dom p2 ->
   (p1 <> (65535, 65535) -> placement_to_pos (placement_id p1) = p1) /\
   (placement_id p1 = placement_id p2 ->
-   p1 = p2 \/ (p1 = (0, 0) /\ p2 = (65535, 65535)) \/ (p1 = (65535, 65535) /\ p2 = (0, 0))).
+   p1 = p2 \/ (p1 = (65534, 65535) /\ p2 = (65535, 65535)) \/ (p1 = (65535, 65535) /\ p2 = (65534, 65535))).
 Proof.
   intros p1 p2 H1 H2. split; [apply placement_inverse, H1|apply placement_inj; assumption].
 Qed.
@@ -125,17 +126,17 @@ Theorem C11_pairing : forall (st : kitty) (s : tstore) (img : image) (hash : N) 
   ~ In (image_id hash, placement_id pos) (places_of s') /\
   (forall x, In x (places_of s) -> x <> (image_id hash, placement_id pos) -> In x (places_of s')) /\
   (forall pos', in_dom pos' -> pos' <> pos ->
-     ~ (pos = (0, 0) /\ pos' = (65535, 65535)) -> ~ (pos = (65535, 65535) /\ pos' = (0, 0)) ->
+     ~ (pos = (65534, 65535) /\ pos' = (65535, 65535)) -> ~ (pos = (65535, 65535) /\ pos' = (65534, 65535)) ->
      In (image_id hash, placement_id pos') (places_of s) ->
      In (image_id hash, placement_id pos') (places_of s')).
 Proof. exact erase_exact. Qed.
 
-(* known finding (class pid-corner): the two corner positions share placement id 1.  There are
-   2^32 positions with coordinates below 65536 and only 2^32 - 1 valid ids, so some pair has to. *)
+(* known finding (class pid-corner): the last two positions share the largest placement id.  There
+   are 2^32 positions with coordinates below 65536 and only 2^32 - 1 valid ids, so some pair has to. *)
 Theorem C11_pairing_corner_refuted : exists p1 p2 : N * N,
   in_dom p1 /\ in_dom p2 /\ p1 <> p2 /\ placement_id p1 = placement_id p2.
 Proof.
-  exists (0, 0), (65535, 65535). repeat split; try reflexivity. discriminate.
+  exists (65534, 65535), (65535, 65535). repeat split; try reflexivity. discriminate.
 Qed.
 
 (* the collision is forced: whatever numbering of positions by valid ids one picks, two distinct
@@ -205,7 +206,7 @@ Check C11_pairing : forall (st : kitty) (s : tstore) (img : image) (hash : N) (p
   ~ In (image_id hash, placement_id pos) (places_of s') /\
   (forall x, In x (places_of s) -> x <> (image_id hash, placement_id pos) -> In x (places_of s')) /\
   (forall pos', in_dom pos' -> pos' <> pos ->
-     ~ (pos = (0, 0) /\ pos' = (65535, 65535)) -> ~ (pos = (65535, 65535) /\ pos' = (0, 0)) ->
+     ~ (pos = (65534, 65535) /\ pos' = (65535, 65535)) -> ~ (pos = (65535, 65535) /\ pos' = (65534, 65535)) ->
      In (image_id hash, placement_id pos') (places_of s) ->
      In (image_id hash, placement_id pos') (places_of s')).
 
